@@ -1,19 +1,26 @@
-//! Region queries: the same sequence of queries on one sync reader (oracle) and on one async reader over the same
-//! file and the same (sync-built) index.
+//! Region queries: the same HISTORY of operations on ONE sync reader (oracle) and on ONE async reader over the same file
+//! and the same (sync-built) index. A history mixes region queries (whole reference, intervals, single records, the same
+//! region twice, ascending / descending order), the unmapped query, partially consumed query streams that are dropped,
+//! sequential reads of n records (so that the reader sits exactly at a BGZF block end before the next query) and rewinds.
+//! After every operation the virtual position of the underlying BGZF reader is recorded (compared by the offset it
+//! denotes). `Raw*` modes drive `csi::io::Query` / `csi::async::io::Query` directly on a FRESH BGZF reader with the chunk
+//! lists of the index (bytes + position, no record parsing).
 
-use std::io::{self, Cursor};
+use std::io::{self, BufRead, Cursor, Read};
 
 use corpus::{Kind, Side, render};
 use futures::TryStreamExt;
 use noodles_bam as bam;
 use noodles_bcf as bcf;
+use noodles_bgzf as bgzf;
 use noodles_core::{Position, Region};
 use noodles_cram as cram;
-use noodles_csi as csi;
+use noodles_csi::{self as csi, BinningIndex, binning_index::index::reference_sequence::bin::Chunk};
 use noodles_sam as sam;
 use noodles_tabix as tabix;
 use noodles_vcf as vcf;
-use vcore::{Rng, aadv::PollRead};
+use tokio::io::{AsyncBufReadExt, AsyncReadExt};
+use vcore::{Rng, aadv::PollRead, rng::fnv1a};
 
 use crate::rd::{bgzf_reader, repository};
 
@@ -22,25 +29,52 @@ pub enum Q {
     /// whole reference sequence or an interval of it (1-based, closed)
     Region(String, Option<(usize, usize)>),
     Unmapped,
+    /// the query stream is dropped after `take` records
+    Partial(String, Option<(usize, usize)>, usize),
+    /// `n` records (generic indexed text: lines) are read sequentially from wherever the reader is
+    Read(usize),
+    /// the underlying BGZF reader seeks back to where it was right after the header was read (generic: position 0)
+    Rewind,
 }
 
 impl Q {
     pub fn describe(&self) -> String {
+        let iv = |n: &String, i: &Option<(usize, usize)>| match i {
+            None => n.clone(),
+            Some((a, b)) => format!("{n}:{a}-{b}"),
+        };
         match self {
-            Q::Region(n, None) => n.clone(),
-            Q::Region(n, Some((a, b))) => format!("{n}:{a}-{b}"),
+            Q::Region(n, i) => iv(n, i),
             Q::Unmapped => "*unmapped*".into(),
+            Q::Partial(n, i, k) => format!("{} (dropped after {k} records)", iv(n, i)),
+            Q::Read(n) => format!("*read {n} records sequentially*"),
+            Q::Rewind => "*rewind to the first record*".into(),
+        }
+    }
+    pub fn class(&self) -> &'static str {
+        match self {
+            Q::Region(..) => "region",
+            Q::Unmapped => "unmapped",
+            Q::Partial(..) => "region-partially-consumed",
+            Q::Read(_) => "sequential-read",
+            Q::Rewind => "rewind",
         }
     }
     fn region(&self) -> Option<Region> {
         match self {
-            Q::Region(n, None) => Some(Region::new(n.as_str(), ..)),
-            Q::Region(n, Some((a, b))) => {
+            Q::Region(n, None) | Q::Partial(n, None, _) => Some(Region::new(n.as_str(), ..)),
+            Q::Region(n, Some((a, b))) | Q::Partial(n, Some((a, b)), _) => {
                 let s = Position::new((*a).max(1))?;
                 let e = Position::new((*b).max(1))?;
                 Some(Region::new(n.as_str(), s..=e))
             }
-            Q::Unmapped => None,
+            _ => None,
+        }
+    }
+    fn take(&self) -> Option<usize> {
+        match self {
+            Q::Partial(_, _, k) => Some(*k),
+            _ => None,
         }
     }
 }
@@ -52,9 +86,14 @@ pub enum Mode {
     SamGzCsi,
     BcfCsi,
     VcfGzTbi,
-    /// `csi::io::IndexedReader` / `csi::async::io::IndexedReader` with the tabix index of a VCF.gz
+    /// `csi::io::IndexedReader` / `csi::async::io::IndexedReader` with the tabix index of a VCF.gz, on a fresh reader
     GenericTbi,
     CramCrai,
+    /// raw `csi::io::Query` / `csi::async::io::Query` on a fresh BGZF reader, chunk lists from the index
+    RawBamBai,
+    RawSamGzCsi,
+    RawBcfCsi,
+    RawVcfGzTbi,
 }
 
 impl Mode {
@@ -66,50 +105,143 @@ impl Mode {
             Mode::VcfGzTbi => "vcfgz",
             Mode::GenericTbi => "csi-indexed",
             Mode::CramCrai => "cram",
+            Mode::RawBamBai | Mode::RawSamGzCsi | Mode::RawBcfCsi | Mode::RawVcfGzTbi => "csi-raw-query",
         }
+    }
+    pub fn ordinal(self) -> u64 {
+        self as u64
     }
     pub fn for_kinds(data: Kind, index: Kind) -> Vec<Mode> {
         match (data, index) {
-            (Kind::Bam, Kind::Bai) => vec![Mode::BamBai],
-            (Kind::SamGz, Kind::Csi) => vec![Mode::SamGzCsi],
-            (Kind::Bcf, Kind::Csi) => vec![Mode::BcfCsi],
-            (Kind::VcfGz, Kind::Tbi) => vec![Mode::VcfGzTbi, Mode::GenericTbi],
+            (Kind::Bam, Kind::Bai) => vec![Mode::BamBai, Mode::RawBamBai],
+            (Kind::SamGz, Kind::Csi) => vec![Mode::SamGzCsi, Mode::RawSamGzCsi],
+            (Kind::Bcf, Kind::Csi) => vec![Mode::BcfCsi, Mode::RawBcfCsi],
+            (Kind::VcfGz, Kind::Tbi) => vec![Mode::VcfGzTbi, Mode::GenericTbi, Mode::RawVcfGzTbi],
             (Kind::Cram, Kind::Crai) => vec![Mode::CramCrai],
             _ => vec![],
         }
     }
+    /// the typed mode whose header / index resolve names for a raw mode
+    pub fn base(self) -> Mode {
+        match self {
+            Mode::RawBamBai => Mode::BamBai,
+            Mode::RawSamGzCsi => Mode::SamGzCsi,
+            Mode::RawBcfCsi => Mode::BcfCsi,
+            Mode::RawVcfGzTbi => Mode::VcfGzTbi,
+            m => m,
+        }
+    }
+    pub fn is_raw(self) -> bool {
+        self.base() != self
+    }
     pub fn supports_unmapped(self) -> bool {
         matches!(self, Mode::BamBai | Mode::SamGzCsi | Mode::CramCrai)
     }
+    pub fn supports_read(self) -> bool {
+        !matches!(self, Mode::CramCrai) && !self.is_raw()
+    }
     pub fn uses_bgzf(self) -> bool {
         !matches!(self, Mode::CramCrai)
+    }
+    /// the worker count of the BGZF reader can be chosen
+    pub fn has_worker_count(self) -> bool {
+        self.uses_bgzf() && self != Mode::GenericTbi
     }
 }
 
 /// Reference names and lengths of the data file (through the sync reader: it is the oracle side).
 pub fn references(mode: Mode, data: &[u8]) -> io::Result<Vec<(String, usize)>> {
-    match mode {
+    match mode.base() {
         Mode::BamBai | Mode::SamGzCsi | Mode::CramCrai => {
-            let header = match mode {
+            let header = match mode.base() {
                 Mode::BamBai => bam::io::Reader::new(data).read_header()?,
-                Mode::SamGzCsi => sam::io::Reader::new(noodles_bgzf::io::Reader::new(data)).read_header()?,
+                Mode::SamGzCsi => sam::io::Reader::new(bgzf::io::Reader::new(data)).read_header()?,
                 _ => cram::io::Reader::new(data).read_header()?,
             };
             Ok(header.reference_sequences().iter().map(|(n, m)| (n.to_string(), usize::from(m.length()))).collect())
         }
-        Mode::BcfCsi | Mode::VcfGzTbi | Mode::GenericTbi => {
-            let header = match mode {
+        _ => {
+            let header = match mode.base() {
                 Mode::BcfCsi => bcf::io::Reader::new(data).read_header()?,
-                _ => vcf::io::Reader::new(noodles_bgzf::io::Reader::new(data)).read_header()?,
+                _ => vcf::io::Reader::new(bgzf::io::Reader::new(data)).read_header()?,
             };
             Ok(header.contigs().iter().map(|(n, m)| (n.to_string(), m.length().unwrap_or(100_000))).collect())
         }
     }
 }
 
-/// A deterministic query sequence: whole references, sub-intervals, an unknown name, the unmapped query, and
-/// REPEATED queries (a second query that starts at the same chunk as the previous one must seek again).
-pub fn gen_queries(rng: &mut Rng, mode: Mode, refs: &[(String, usize)], n: usize) -> Vec<Q> {
+/// (reference name, start, end) of every placed record, in file order (sync reader; records without a start are left out).
+pub fn record_spans(mode: Mode, data: &[u8], side: &Side) -> io::Result<Vec<(String, usize, usize)>> {
+    let mut out = Vec::new();
+    match mode.base() {
+        Mode::BamBai | Mode::SamGzCsi | Mode::CramCrai => {
+            let mut push = |header: &sam::Header, rec: &dyn sam::alignment::Record| {
+                if let (Some(Ok(id)), Some(Ok(s))) = (rec.reference_sequence_id(header), rec.alignment_start()) {
+                    let e = rec.alignment_end().and_then(|r| r.ok()).map(usize::from).unwrap_or(usize::from(s));
+                    if let Some((n, _)) = header.reference_sequences().get_index(id) {
+                        out.push((n.to_string(), usize::from(s), e.max(usize::from(s))));
+                    }
+                }
+            };
+            match mode.base() {
+                Mode::BamBai => {
+                    let mut r = bam::io::Reader::new(data);
+                    let h = r.read_header()?;
+                    for rec in r.records() {
+                        push(&h, &rec?);
+                    }
+                }
+                Mode::SamGzCsi => {
+                    let mut r = sam::io::Reader::new(bgzf::io::Reader::new(data));
+                    let h = r.read_header()?;
+                    for rec in r.records() {
+                        push(&h, &rec?);
+                    }
+                }
+                _ => {
+                    let mut r = cram::io::reader::Builder::default().set_reference_sequence_repository(repository(side)?).build_from_reader(data);
+                    let h = r.read_header()?;
+                    for rec in r.records(&h) {
+                        push(&h, &rec?);
+                    }
+                }
+            }
+        }
+        _ => {
+            let mut push = |header: &vcf::Header, rec: &dyn vcf::variant::Record| {
+                if let (Ok(n), Some(Ok(s))) = (rec.reference_sequence_name(header), rec.variant_start()) {
+                    let e = rec.variant_end(header).map(usize::from).unwrap_or(usize::from(s));
+                    out.push((n.to_string(), usize::from(s), e.max(usize::from(s))));
+                }
+            };
+            if mode.base() == Mode::BcfCsi {
+                let mut r = bcf::io::Reader::new(data);
+                let h = r.read_header()?;
+                for rec in r.records() {
+                    push(&h, &rec?);
+                }
+            } else {
+                let mut r = vcf::io::Reader::new(bgzf::io::Reader::new(data));
+                let h = r.read_header()?;
+                for rec in r.records() {
+                    push(&h, &rec?);
+                }
+            }
+        }
+    }
+    Ok(out)
+}
+
+/// Record counts n such that, after reading n records sequentially from the first record, the BGZF reader sits exactly
+/// at the end of a member (`bounds` = record boundaries in the inflated payload, `starts` = member starts in it).
+pub fn counts_at_block_ends(bounds: &[usize], member_starts: &[u64]) -> Vec<usize> {
+    // bounds[0] = start of the first record, bounds[n] = end of record n-1
+    (0..bounds.len()).filter(|&n| member_starts.contains(&(bounds[n] as u64))).collect()
+}
+
+/// A deterministic history (see the module docs). `spans` = placed records in file order, `at_block_end` = record counts
+/// after which a sequential read sits at a member end.
+pub fn gen_queries(rng: &mut Rng, mode: Mode, refs: &[(String, usize)], spans: &[(String, usize, usize)], at_block_end: &[usize], n_random: usize) -> Vec<Q> {
     let mut qs = Vec::new();
     if refs.is_empty() {
         qs.push(Q::Region("nope".into(), None));
@@ -118,6 +250,58 @@ pub fn gen_queries(rng: &mut Rng, mode: Mode, refs: &[(String, usize)], n: usize
         }
         return qs;
     }
+    let single = |i: usize| -> Q {
+        let (n, s, e) = &spans[i.min(spans.len() - 1)];
+        Q::Region(n.clone(), Some((*s, *e)))
+    };
+    let near = |rng: &mut Rng, i: usize| -> Q {
+        let (n, s, e) = &spans[i.min(spans.len() - 1)];
+        Q::Region(n.clone(), Some((*s, *e + rng.urange(0, 40))))
+    };
+    if !spans.is_empty() {
+        // (1) sequential reads up to exactly a member end, each followed by a query that starts shortly after
+        if mode.supports_read() {
+            let mut cands: Vec<usize> = at_block_end.iter().copied().filter(|&n| n < spans.len().min(60)).collect();
+            rng.shuffle(&mut cands);
+            for &n in cands.iter().take(3) {
+                qs.push(Q::Rewind);
+                qs.push(Q::Read(n));
+                let d = rng.urange(0, 3);
+                qs.push(near(rng, n + d));
+            }
+            qs.push(Q::Read(rng.urange(1, 4)));
+            qs.push(single(rng.usize_below(spans.len())));
+        }
+        // (2) single-record regions in ascending order with steps 1, 2, 3, then in descending order
+        let a = rng.usize_below(spans.len());
+        let mut i = a;
+        for step in [1usize, 2, 3, 1, 2] {
+            qs.push(single(i));
+            i += step;
+            if i >= spans.len() {
+                break;
+            }
+        }
+        let mut j = (a + 9).min(spans.len() - 1);
+        for step in [2usize, 1, 3, 2] {
+            qs.push(single(j));
+            if j < step {
+                break;
+            }
+            j -= step;
+        }
+        // (3) the same region twice; a partially consumed stream that is dropped, then a query next to it
+        let k = rng.usize_below(spans.len());
+        qs.push(near(rng, k));
+        qs.push(qs.last().unwrap().clone());
+        let (n, s, _) = &spans[k];
+        qs.push(Q::Partial(n.clone(), Some((*s, *s + 30_000)), rng.urange(0, 3)));
+        qs.push(single((k + 2).min(spans.len() - 1)));
+        qs.push(Q::Partial(refs[0].0.clone(), None, 1));
+        qs.push(Q::Region(refs[0].0.clone(), None));
+        qs.push(Q::Region(refs[0].0.clone(), None));
+    }
+    // (4) random part: whole references, intervals, an unknown name, the unmapped query, repeats
     let interval = |rng: &mut Rng, len: usize| -> (usize, usize) {
         let len = len.max(2);
         let a = rng.urange(1, len);
@@ -129,22 +313,24 @@ pub fn gen_queries(rng: &mut Rng, mode: Mode, refs: &[(String, usize)], n: usize
         };
         (a, (a + span).min(len + 10))
     };
-    for i in 0..n {
+    for i in 0..n_random {
         let (name, len) = &refs[rng.usize_below(refs.len())];
         let q = match (i, rng.below(10)) {
-            (0, _) => Q::Region(refs[0].0.clone(), None),
-            (1, _) => Q::Region(refs[0].0.clone(), None), // immediate repeat of the first query
+            (0, _) => Q::Region(refs[refs.len() - 1].0.clone(), None),
             (_, 0) => Q::Region(name.clone(), None),
             (_, 1) if mode.supports_unmapped() => Q::Unmapped,
             (_, 2) => Q::Region("no-such-reference".into(), None),
-            (_, 3) if !qs.is_empty() => qs[rng.usize_below(qs.len())].clone(), // repeat of an earlier query
+            (_, 3) if !qs.is_empty() => qs[rng.usize_below(qs.len())].clone(),
+            (_, 4) if mode.supports_read() => Q::Read(rng.urange(1, 5)),
             _ => Q::Region(name.clone(), Some(interval(rng, *len))),
         };
         qs.push(q);
     }
-    // the last query repeats the one before it
     if let Some(last) = qs.last().cloned() {
         qs.push(last);
+    }
+    if !mode.supports_read() {
+        qs.retain(|q| !matches!(q, Q::Read(_) | Q::Rewind));
     }
     qs
 }
@@ -163,25 +349,48 @@ impl Qt {
     fn end(&mut self) {
         self.out.push("END".into());
     }
+    /// the consumer stopped (n records read / stream dropped)
+    fn stop(&mut self) {
+        self.out.push("STOP".into());
+    }
     fn err(&mut self, e: &io::Error) {
         self.out.push(format!("ERR:{:?}\u{1e}{}", e.kind(), e));
     }
+    fn pos(&mut self, v: bgzf::VirtualPosition) {
+        self.out.push(format!("V:{}", u64::from(v)));
+    }
 }
 
+/// Drains an iterator of results; returns true if it failed. `take` = drop it after that many records.
 macro_rules! sync_iter {
-    ($t:expr, $it:expr, $render:expr) => {{
+    ($t:expr, $it:expr, $render:expr, $take:expr) => {{
+        let take: Option<usize> = $take;
         let mut failed = false;
-        for res in $it {
-            match res {
-                Ok(rec) => $t.out.push(format!("R:{}", $render(&rec))),
-                Err(e) => {
+        let mut stopped = false;
+        let mut n = 0usize;
+        let mut it = $it;
+        loop {
+            if take == Some(n) {
+                stopped = true;
+                break;
+            }
+            match it.next() {
+                Some(Ok(rec)) => {
+                    n += 1;
+                    $t.out.push(format!("R:{}", $render(&rec)))
+                }
+                Some(Err(e)) => {
                     $t.err(&e);
                     failed = true;
                     break;
                 }
+                None => break,
             }
         }
-        if !failed {
+        drop(it);
+        if stopped {
+            $t.stop();
+        } else if !failed {
             $t.end();
         }
         failed
@@ -189,12 +398,22 @@ macro_rules! sync_iter {
 }
 
 macro_rules! async_stream {
-    ($t:expr, $st:expr, $render:expr) => {{
+    ($t:expr, $st:expr, $render:expr, $take:expr) => {{
+        let take: Option<usize> = $take;
         let mut failed = false;
+        let mut stopped = false;
+        let mut n = 0usize;
         let mut st = $st;
         loop {
+            if take == Some(n) {
+                stopped = true;
+                break;
+            }
             match st.try_next().await {
-                Ok(Some(rec)) => $t.out.push(format!("R:{}", $render(&rec))),
+                Ok(Some(rec)) => {
+                    n += 1;
+                    $t.out.push(format!("R:{}", $render(&rec)))
+                }
                 Ok(None) => break,
                 Err(e) => {
                     $t.err(&e);
@@ -203,11 +422,201 @@ macro_rules! async_stream {
                 }
             }
         }
-        if !failed {
+        drop(st);
+        if stopped {
+            $t.stop();
+        } else if !failed {
             $t.end();
         }
         failed
     }};
+}
+
+/// One history on a typed sync reader over a BGZF reader. `$unmapped`: `yes` / `no`.
+macro_rules! typed_sync {
+    ($t:ident, $queries:ident, $r:ident, $header:ident, $index:ident, $rec:ty, $render:expr, $unmapped:tt) => {{
+        let first = $r.get_ref().virtual_position();
+        for q in $queries {
+            $t.start(q);
+            let failed = match q {
+                Q::Rewind => match $r.get_mut().seek(first) {
+                    Ok(_) => {
+                        $t.end();
+                        false
+                    }
+                    Err(e) => {
+                        $t.err(&e);
+                        true
+                    }
+                },
+                Q::Read(n) => {
+                    let mut rec = <$rec>::default();
+                    let mut failed = false;
+                    let mut done = false;
+                    for _ in 0..*n {
+                        match $r.read_record(&mut rec) {
+                            Ok(0) => {
+                                $t.end();
+                                done = true;
+                                break;
+                            }
+                            Ok(_) => $t.out.push(format!("R:{}", $render(&rec))),
+                            Err(e) => {
+                                $t.err(&e);
+                                failed = true;
+                                done = true;
+                                break;
+                            }
+                        }
+                    }
+                    if !done {
+                        $t.stop();
+                    }
+                    failed
+                }
+                Q::Unmapped => typed_sync!(@unmapped $unmapped, $t, $r, $index, $render),
+                _ => match q.region() {
+                    Some(region) => match $r.query(&$header, &$index, &region) {
+                        Ok(qq) => sync_iter!($t, qq.records(), $render, q.take()),
+                        Err(e) => {
+                            $t.qerr(&e);
+                            false
+                        }
+                    },
+                    None => false,
+                },
+            };
+            if failed {
+                break;
+            }
+            $t.pos($r.get_ref().virtual_position());
+        }
+    }};
+    (@unmapped yes, $t:ident, $r:ident, $index:ident, $render:expr) => {
+        match $r.query_unmapped(&$index) {
+            Ok(it) => sync_iter!($t, it, $render, None),
+            Err(e) => {
+                $t.qerr(&e);
+                false
+            }
+        }
+    };
+    (@unmapped no, $t:ident, $r:ident, $index:ident, $render:expr) => {
+        false
+    };
+}
+
+macro_rules! typed_async {
+    ($t:ident, $queries:ident, $r:ident, $header:ident, $index:ident, $rec:ty, $render:expr, $unmapped:tt) => {{
+        let first = $r.get_ref().virtual_position();
+        for q in &$queries {
+            $t.start(q);
+            let failed = match q {
+                Q::Rewind => match $r.get_mut().seek(first).await {
+                    Ok(_) => {
+                        $t.end();
+                        false
+                    }
+                    Err(e) => {
+                        $t.err(&e);
+                        true
+                    }
+                },
+                Q::Read(n) => {
+                    let mut rec = <$rec>::default();
+                    let mut failed = false;
+                    let mut done = false;
+                    for _ in 0..*n {
+                        match $r.read_record(&mut rec).await {
+                            Ok(0) => {
+                                $t.end();
+                                done = true;
+                                break;
+                            }
+                            Ok(_) => $t.out.push(format!("R:{}", $render(&rec))),
+                            Err(e) => {
+                                $t.err(&e);
+                                failed = true;
+                                done = true;
+                                break;
+                            }
+                        }
+                    }
+                    if !done {
+                        $t.stop();
+                    }
+                    failed
+                }
+                Q::Unmapped => typed_async!(@unmapped $unmapped, $t, $r, $index, $render),
+                _ => match q.region() {
+                    Some(region) => match $r.query(&$header, &$index, &region) {
+                        Ok(qq) => async_stream!($t, qq.records(), $render, q.take()),
+                        Err(e) => {
+                            $t.qerr(&e);
+                            false
+                        }
+                    },
+                    None => false,
+                },
+            };
+            if failed {
+                break;
+            }
+            $t.pos($r.get_ref().virtual_position());
+        }
+    }};
+    (@unmapped yes, $t:ident, $r:ident, $index:ident, $render:expr) => {
+        match $r.query_unmapped(&$index).await {
+            Ok(st) => async_stream!($t, st, $render, None),
+            Err(e) => {
+                $t.qerr(&e);
+                false
+            }
+        }
+    };
+    (@unmapped no, $t:ident, $r:ident, $index:ident, $render:expr) => {
+        false
+    };
+}
+
+fn line_of(rec: &csi::io::indexed_records::Record) -> String {
+    let s: &str = rec.as_ref();
+    s.to_string()
+}
+
+/// Chunk lists of the region queries of a history (None: not a region query / unknown reference).
+pub fn chunk_lists(mode: Mode, data: &[u8], index_bytes: &[u8], queries: &[Q]) -> io::Result<Vec<Option<Vec<Chunk>>>> {
+    fn chunks<I: BinningIndex>(index: &I, id: Option<usize>, q: &Q) -> Option<Vec<Chunk>> {
+        let region = q.region()?;
+        index.query(id?, region.interval()).ok()
+    }
+    let name_of = |q: &Q| match q {
+        Q::Region(n, _) | Q::Partial(n, _, _) => Some(n.clone()),
+        _ => None,
+    };
+    Ok(match mode.base() {
+        Mode::BamBai => {
+            let index = bam::bai::io::Reader::new(index_bytes).read_index()?;
+            let header = bam::io::Reader::new(data).read_header()?;
+            queries.iter().map(|q| chunks(&index, name_of(q).and_then(|n| header.reference_sequences().get_index_of(n.as_bytes())), q)).collect()
+        }
+        Mode::SamGzCsi => {
+            let index = csi::io::Reader::new(index_bytes).read_index()?;
+            let header = sam::io::Reader::new(bgzf::io::Reader::new(data)).read_header()?;
+            queries.iter().map(|q| chunks(&index, name_of(q).and_then(|n| header.reference_sequences().get_index_of(n.as_bytes())), q)).collect()
+        }
+        Mode::BcfCsi => {
+            let index = csi::io::Reader::new(index_bytes).read_index()?;
+            let header = bcf::io::Reader::new(data).read_header()?;
+            queries.iter().map(|q| chunks(&index, name_of(q).and_then(|n| header.string_maps().contigs().get_index_of(&n)), q)).collect()
+        }
+        Mode::VcfGzTbi | Mode::GenericTbi => {
+            let index = tabix::io::Reader::new(index_bytes).read_index()?;
+            let names = index.header().map(|h| h.reference_sequence_names().clone()).unwrap_or_default();
+            queries.iter().map(|q| chunks(&index, name_of(q).and_then(|n| names.get_index_of(n.as_bytes())), q)).collect()
+        }
+        _ => queries.iter().map(|_| None).collect(),
+    })
 }
 
 /// The history stops after the first error of a record stream (nothing is required of a reader after an error);
@@ -219,110 +628,82 @@ pub fn run_sync(mode: Mode, data: &[u8], index_bytes: &[u8], side: &Side, querie
             let index = bam::bai::io::Reader::new(index_bytes).read_index()?;
             let mut r = bam::io::Reader::new(Cursor::new(data.to_vec()));
             let header = r.read_header()?;
-            for q in queries {
-                t.start(q);
-                let failed = match q.region() {
-                    Some(region) => match r.query(&header, &index, &region) {
-                        Ok(qq) => sync_iter!(t, qq.records(), |rec| render::alignment_record(&header, rec)),
-                        Err(e) => {
-                            t.qerr(&e);
-                            false
-                        }
-                    },
-                    None => match r.query_unmapped(&index) {
-                        Ok(it) => sync_iter!(t, it, |rec| render::alignment_record(&header, rec)),
-                        Err(e) => {
-                            t.qerr(&e);
-                            false
-                        }
-                    },
-                };
-                if failed {
-                    break;
-                }
-            }
+            typed_sync!(t, queries, r, header, index, bam::Record, |rec| render::alignment_record(&header, rec), yes);
         }
         Mode::SamGzCsi => {
             let index = csi::io::Reader::new(index_bytes).read_index()?;
-            let mut r = sam::io::Reader::new(noodles_bgzf::io::Reader::new(Cursor::new(data.to_vec())));
+            let mut r = sam::io::Reader::new(bgzf::io::Reader::new(Cursor::new(data.to_vec())));
             let header = r.read_header()?;
-            for q in queries {
-                t.start(q);
-                let failed = match q.region() {
-                    Some(region) => match r.query(&header, &index, &region) {
-                        Ok(qq) => sync_iter!(t, qq.records(), |rec| render::alignment_record(&header, rec)),
-                        Err(e) => {
-                            t.qerr(&e);
-                            false
-                        }
-                    },
-                    None => match r.query_unmapped(&index) {
-                        Ok(it) => sync_iter!(t, it, |rec| render::alignment_record(&header, rec)),
-                        Err(e) => {
-                            t.qerr(&e);
-                            false
-                        }
-                    },
-                };
-                if failed {
-                    break;
-                }
-            }
+            typed_sync!(t, queries, r, header, index, sam::Record, |rec| render::alignment_record(&header, rec), yes);
         }
         Mode::BcfCsi => {
             let index = csi::io::Reader::new(index_bytes).read_index()?;
             let mut r = bcf::io::Reader::new(Cursor::new(data.to_vec()));
             let header = r.read_header()?;
-            for q in queries {
-                t.start(q);
-                let Some(region) = q.region() else { continue };
-                let failed = match r.query(&header, &index, &region) {
-                    Ok(qq) => sync_iter!(t, qq.records(), |rec| render::variant_record(&header, rec)),
-                    Err(e) => {
-                        t.qerr(&e);
-                        false
-                    }
-                };
-                if failed {
-                    break;
-                }
-            }
+            typed_sync!(t, queries, r, header, index, bcf::Record, |rec| render::variant_record(&header, rec), no);
         }
         Mode::VcfGzTbi => {
             let index = tabix::io::Reader::new(index_bytes).read_index()?;
-            let mut r = vcf::io::Reader::new(noodles_bgzf::io::Reader::new(Cursor::new(data.to_vec())));
+            let mut r = vcf::io::Reader::new(bgzf::io::Reader::new(Cursor::new(data.to_vec())));
             let header = r.read_header()?;
-            for q in queries {
-                t.start(q);
-                let Some(region) = q.region() else { continue };
-                let failed = match r.query(&header, &index, &region) {
-                    Ok(qq) => sync_iter!(t, qq.records(), |rec| render::variant_record(&header, rec)),
-                    Err(e) => {
-                        t.qerr(&e);
-                        false
-                    }
-                };
-                if failed {
-                    break;
-                }
-            }
+            typed_sync!(t, queries, r, header, index, vcf::Record, |rec| render::variant_record(&header, rec), no);
         }
         Mode::GenericTbi => {
             let index = tabix::io::Reader::new(index_bytes).read_index()?;
             let mut r = csi::io::IndexedReader::new(Cursor::new(data.to_vec()), index);
+            let mut line = Vec::new();
             for q in queries {
                 t.start(q);
-                let Some(region) = q.region() else { continue };
-                let failed = match r.query(&region) {
-                    Ok(it) => sync_iter!(t, it, |rec: &csi::io::indexed_records::Record| { let s: &str = rec.as_ref(); s.to_string() }),
-                    Err(e) => {
-                        t.qerr(&e);
-                        false
+                let failed = match q {
+                    Q::Rewind => match r.get_mut().seek(bgzf::VirtualPosition::default()) {
+                        Ok(_) => {
+                            t.end();
+                            false
+                        }
+                        Err(e) => {
+                            t.err(&e);
+                            true
+                        }
+                    },
+                    Q::Read(n) => {
+                        let (mut failed, mut done) = (false, false);
+                        for _ in 0..*n {
+                            line.clear();
+                            match r.get_mut().read_until(b'\n', &mut line) {
+                                Ok(0) => {
+                                    t.end();
+                                    done = true;
+                                    break;
+                                }
+                                Ok(_) => t.out.push(format!("R:{}", render::esc(&line))),
+                                Err(e) => {
+                                    t.err(&e);
+                                    failed = true;
+                                    done = true;
+                                    break;
+                                }
+                            }
+                        }
+                        if !done {
+                            t.stop();
+                        }
+                        failed
                     }
+                    _ => match q.region() {
+                        Some(region) => match r.query(&region) {
+                            Ok(it) => sync_iter!(t, it, line_of, q.take()),
+                            Err(e) => {
+                                t.qerr(&e);
+                                false
+                            }
+                        },
+                        None => false,
+                    },
                 };
                 if failed {
                     break;
                 }
+                t.pos(r.get_ref().virtual_position());
             }
         }
         Mode::CramCrai => {
@@ -332,25 +713,63 @@ pub fn run_sync(mode: Mode, data: &[u8], index_bytes: &[u8], side: &Side, querie
             let header = r.read_header()?;
             for q in queries {
                 t.start(q);
-                let failed = match q.region() {
-                    Some(region) => match r.query(&header, &index, &region) {
-                        Ok(qq) => sync_iter!(t, qq.records(), |rec| render::alignment_record(&header, rec)),
+                let failed = match q {
+                    Q::Unmapped => match r.query_unmapped(&header, &index) {
+                        Ok(it) => sync_iter!(t, it, |rec| render::alignment_record(&header, rec), None),
                         Err(e) => {
                             t.qerr(&e);
                             false
                         }
                     },
-                    None => match r.query_unmapped(&header, &index) {
-                        Ok(it) => sync_iter!(t, it, |rec| render::alignment_record(&header, rec)),
-                        Err(e) => {
-                            t.qerr(&e);
-                            false
-                        }
+                    _ => match q.region() {
+                        Some(region) => match r.query(&header, &index, &region) {
+                            Ok(qq) => sync_iter!(t, qq.records(), |rec| render::alignment_record(&header, rec), q.take()),
+                            Err(e) => {
+                                t.qerr(&e);
+                                false
+                            }
+                        },
+                        None => false,
                     },
                 };
                 if failed {
                     break;
                 }
+            }
+        }
+        Mode::RawBamBai | Mode::RawSamGzCsi | Mode::RawBcfCsi | Mode::RawVcfGzTbi => {
+            let lists = chunk_lists(mode, data, index_bytes, queries)?;
+            // ONE reader, never read before the first query (no header read)
+            let mut r = bgzf::io::Reader::new(Cursor::new(data.to_vec()));
+            for (q, chunks) in queries.iter().zip(lists) {
+                t.start(q);
+                let Some(chunks) = chunks else {
+                    t.out.push("QERR:no-chunks".into());
+                    continue;
+                };
+                let mut bytes = Vec::new();
+                let res = {
+                    let mut query = csi::io::Query::new(&mut r, chunks);
+                    match q.take() {
+                        // partially consumed: 100 bytes per "record"
+                        Some(k) => {
+                            let mut buf = vec![0u8; 100 * k];
+                            query.read(&mut buf).map(|n| bytes.extend_from_slice(&buf[..n]))
+                        }
+                        None => query.read_to_end(&mut bytes).map(|_| ()),
+                    }
+                };
+                match res {
+                    Ok(()) => {
+                        t.out.push(format!("D:{:016x}:{}", fnv1a(&bytes), bytes.len()));
+                        t.end();
+                    }
+                    Err(e) => {
+                        t.err(&e);
+                        break;
+                    }
+                }
+                t.pos(r.virtual_position());
             }
         }
     }
@@ -359,118 +778,90 @@ pub fn run_sync(mode: Mode, data: &[u8], index_bytes: &[u8], side: &Side, querie
 
 /// The index is parsed with the SYNC index reader here too: the async index readers are compared separately, and
 /// the statement compares query results on the same file + index.
-pub async fn run_async(mode: Mode, src: PollRead, index_bytes: Vec<u8>, side: Side, queries: Vec<Q>, workers: usize) -> io::Result<Vec<String>> {
+pub async fn run_async(mode: Mode, src: PollRead, data: Vec<u8>, index_bytes: Vec<u8>, side: Side, queries: Vec<Q>, workers: usize) -> io::Result<Vec<String>> {
     let mut t = Qt { out: Vec::new() };
     match mode {
         Mode::BamBai => {
             let index = bam::bai::io::Reader::new(&index_bytes[..]).read_index()?;
             let mut r = bam::r#async::io::Reader::from(bgzf_reader(src, workers));
             let header = r.read_header().await?;
-            for q in &queries {
-                t.start(q);
-                let failed = match q.region() {
-                    Some(region) => match r.query(&header, &index, &region) {
-                        Ok(qq) => async_stream!(t, qq.records(), |rec| render::alignment_record(&header, rec)),
-                        Err(e) => {
-                            t.qerr(&e);
-                            false
-                        }
-                    },
-                    None => match r.query_unmapped(&index).await {
-                        Ok(st) => async_stream!(t, st, |rec| render::alignment_record(&header, rec)),
-                        Err(e) => {
-                            t.qerr(&e);
-                            false
-                        }
-                    },
-                };
-                if failed {
-                    break;
-                }
-            }
+            typed_async!(t, queries, r, header, index, bam::Record, |rec| render::alignment_record(&header, rec), yes);
         }
         Mode::SamGzCsi => {
             let index = csi::io::Reader::new(&index_bytes[..]).read_index()?;
             let mut r = sam::r#async::io::Reader::new(bgzf_reader(src, workers));
             let header = r.read_header().await?;
-            for q in &queries {
-                t.start(q);
-                let failed = match q.region() {
-                    Some(region) => match r.query(&header, &index, &region) {
-                        Ok(qq) => async_stream!(t, qq.records(), |rec| render::alignment_record(&header, rec)),
-                        Err(e) => {
-                            t.qerr(&e);
-                            false
-                        }
-                    },
-                    None => match r.query_unmapped(&index).await {
-                        Ok(st) => async_stream!(t, st, |rec| render::alignment_record(&header, rec)),
-                        Err(e) => {
-                            t.qerr(&e);
-                            false
-                        }
-                    },
-                };
-                if failed {
-                    break;
-                }
-            }
+            typed_async!(t, queries, r, header, index, sam::Record, |rec| render::alignment_record(&header, rec), yes);
         }
         Mode::BcfCsi => {
             let index = csi::io::Reader::new(&index_bytes[..]).read_index()?;
             let mut r = bcf::r#async::io::Reader::from(bgzf_reader(src, workers));
             let header = r.read_header().await?;
-            for q in &queries {
-                t.start(q);
-                let Some(region) = q.region() else { continue };
-                let failed = match r.query(&header, &index, &region) {
-                    Ok(qq) => async_stream!(t, qq.records(), |rec| render::variant_record(&header, rec)),
-                    Err(e) => {
-                        t.qerr(&e);
-                        false
-                    }
-                };
-                if failed {
-                    break;
-                }
-            }
+            typed_async!(t, queries, r, header, index, bcf::Record, |rec| render::variant_record(&header, rec), no);
         }
         Mode::VcfGzTbi => {
             let index = tabix::io::Reader::new(&index_bytes[..]).read_index()?;
             let mut r = vcf::r#async::io::Reader::new(bgzf_reader(src, workers));
             let header = r.read_header().await?;
-            for q in &queries {
-                t.start(q);
-                let Some(region) = q.region() else { continue };
-                let failed = match r.query(&header, &index, &region) {
-                    Ok(qq) => async_stream!(t, qq.records(), |rec| render::variant_record(&header, rec)),
-                    Err(e) => {
-                        t.qerr(&e);
-                        false
-                    }
-                };
-                if failed {
-                    break;
-                }
-            }
+            typed_async!(t, queries, r, header, index, vcf::Record, |rec| render::variant_record(&header, rec), no);
         }
         Mode::GenericTbi => {
             let index = tabix::io::Reader::new(&index_bytes[..]).read_index()?;
             // the async IndexedReader builds its BGZF reader itself (default worker count)
             let mut r = csi::r#async::io::IndexedReader::new(src, index);
+            let mut line = Vec::new();
             for q in &queries {
                 t.start(q);
-                let Some(region) = q.region() else { continue };
-                let failed = match r.query(&region) {
-                    Ok(st) => async_stream!(t, st, |rec: &csi::io::indexed_records::Record| { let s: &str = rec.as_ref(); s.to_string() }),
-                    Err(e) => {
-                        t.qerr(&e);
-                        false
+                let failed = match q {
+                    Q::Rewind => match r.get_mut().seek(bgzf::VirtualPosition::default()).await {
+                        Ok(_) => {
+                            t.end();
+                            false
+                        }
+                        Err(e) => {
+                            t.err(&e);
+                            true
+                        }
+                    },
+                    Q::Read(n) => {
+                        let (mut failed, mut done) = (false, false);
+                        for _ in 0..*n {
+                            line.clear();
+                            match r.get_mut().read_until(b'\n', &mut line).await {
+                                Ok(0) => {
+                                    t.end();
+                                    done = true;
+                                    break;
+                                }
+                                Ok(_) => t.out.push(format!("R:{}", render::esc(&line))),
+                                Err(e) => {
+                                    t.err(&e);
+                                    failed = true;
+                                    done = true;
+                                    break;
+                                }
+                            }
+                        }
+                        if !done {
+                            t.stop();
+                        }
+                        failed
                     }
+                    _ => match q.region() {
+                        Some(region) => match r.query(&region) {
+                            Ok(st) => async_stream!(t, st, line_of, q.take()),
+                            Err(e) => {
+                                t.qerr(&e);
+                                false
+                            }
+                        },
+                        None => false,
+                    },
                 };
                 if failed {
                     break;
                 }
+                t.pos(r.get_ref().virtual_position());
             }
         }
         Mode::CramCrai => {
@@ -480,20 +871,23 @@ pub async fn run_async(mode: Mode, src: PollRead, index_bytes: Vec<u8>, side: Si
             let header = r.read_header().await?;
             for q in &queries {
                 t.start(q);
-                let failed = match q.region() {
-                    Some(region) => match r.query(&header, &index, &region) {
-                        Ok(qq) => async_stream!(t, qq.records(), |rec| render::alignment_record(&header, rec)),
+                let failed = match q {
+                    Q::Unmapped => match r.query_unmapped(&header, &index).await {
+                        Ok(st) => async_stream!(t, st, |rec| render::alignment_record(&header, rec), None),
                         Err(e) => {
                             t.qerr(&e);
                             false
                         }
                     },
-                    None => match r.query_unmapped(&header, &index).await {
-                        Ok(st) => async_stream!(t, st, |rec| render::alignment_record(&header, rec)),
-                        Err(e) => {
-                            t.qerr(&e);
-                            false
-                        }
+                    _ => match q.region() {
+                        Some(region) => match r.query(&header, &index, &region) {
+                            Ok(qq) => async_stream!(t, qq.records(), |rec| render::alignment_record(&header, rec), q.take()),
+                            Err(e) => {
+                                t.qerr(&e);
+                                false
+                            }
+                        },
+                        None => false,
                     },
                 };
                 if failed {
@@ -501,47 +895,39 @@ pub async fn run_async(mode: Mode, src: PollRead, index_bytes: Vec<u8>, side: Si
                 }
             }
         }
+        Mode::RawBamBai | Mode::RawSamGzCsi | Mode::RawBcfCsi | Mode::RawVcfGzTbi => {
+            let lists = chunk_lists(mode, &data, &index_bytes, &queries)?;
+            let mut r = bgzf_reader(src, workers);
+            for (q, chunks) in queries.iter().zip(lists) {
+                t.start(q);
+                let Some(chunks) = chunks else {
+                    t.out.push("QERR:no-chunks".into());
+                    continue;
+                };
+                let mut bytes = Vec::new();
+                let res = {
+                    let mut query = csi::r#async::io::Query::new(&mut r, chunks);
+                    match q.take() {
+                        Some(k) => {
+                            let mut buf = vec![0u8; 100 * k];
+                            query.read(&mut buf).await.map(|n| bytes.extend_from_slice(&buf[..n]))
+                        }
+                        None => query.read_to_end(&mut bytes).await.map(|_| ()),
+                    }
+                };
+                match res {
+                    Ok(()) => {
+                        t.out.push(format!("D:{:016x}:{}", fnv1a(&bytes), bytes.len()));
+                        t.end();
+                    }
+                    Err(e) => {
+                        t.err(&e);
+                        break;
+                    }
+                }
+                t.pos(r.virtual_position());
+            }
+        }
     }
     Ok(t.out)
-}
-
-/// For every query of the history: virtual positions (start of the first chunk, start of the last chunk) the index
-/// yields for it, or None (no chunk / query cannot be created / unmapped query / CRAM). Used to recognise one root
-/// cause: `poll_seek` of the async BGZF reader skipping a seek to the position of the previous `poll_seek`.
-pub fn chunk_starts(mode: Mode, data: &[u8], index_bytes: &[u8], queries: &[Q]) -> io::Result<Vec<Option<(u64, u64)>>> {
-    use csi::BinningIndex;
-    fn starts<I: BinningIndex>(index: &I, id: Option<usize>, q: &Q) -> Option<(u64, u64)> {
-        let region = q.region()?;
-        let chunks = index.query(id?, region.interval()).ok()?;
-        let first = chunks.first()?;
-        let last = chunks.last()?;
-        Some((u64::from(first.start()), u64::from(last.start())))
-    }
-    let name_of = |q: &Q| match q {
-        Q::Region(n, _) => Some(n.clone()),
-        Q::Unmapped => None,
-    };
-    Ok(match mode {
-        Mode::BamBai => {
-            let index = bam::bai::io::Reader::new(index_bytes).read_index()?;
-            let header = bam::io::Reader::new(data).read_header()?;
-            queries.iter().map(|q| starts(&index, name_of(q).and_then(|n| header.reference_sequences().get_index_of(n.as_bytes())), q)).collect()
-        }
-        Mode::SamGzCsi => {
-            let index = csi::io::Reader::new(index_bytes).read_index()?;
-            let header = sam::io::Reader::new(noodles_bgzf::io::Reader::new(data)).read_header()?;
-            queries.iter().map(|q| starts(&index, name_of(q).and_then(|n| header.reference_sequences().get_index_of(n.as_bytes())), q)).collect()
-        }
-        Mode::BcfCsi => {
-            let index = csi::io::Reader::new(index_bytes).read_index()?;
-            let header = bcf::io::Reader::new(data).read_header()?;
-            queries.iter().map(|q| starts(&index, name_of(q).and_then(|n| header.string_maps().contigs().get_index_of(&n)), q)).collect()
-        }
-        Mode::VcfGzTbi | Mode::GenericTbi => {
-            let index = tabix::io::Reader::new(index_bytes).read_index()?;
-            let names = index.header().map(|h| h.reference_sequence_names().clone()).unwrap_or_default();
-            queries.iter().map(|q| starts(&index, name_of(q).and_then(|n| names.get_index_of(n.as_bytes())), q)).collect()
-        }
-        Mode::CramCrai => queries.iter().map(|_| None).collect(),
-    })
 }
